@@ -255,7 +255,7 @@ func opJS(r *hx.Run, ty string, doc *jv, nontrivial bool) string {
 		// by value must give the same document (pointer-receiver marshalers used to be skipped)
 		b2, err2 := json.Marshal(reflect.ValueOf(v).Elem().Interface())
 		if err2 != nil || !bytes.Equal(b, b2) {
-			r.Fail("", "json.Marshal of a "+ty+" by value differs from by pointer: "+trunc(string(b2))+" vs "+trunc(string(b)))
+			failW(r, "", "json.Marshal of a "+ty+" by value differs from by pointer: "+trunc(string(b2))+" vs "+trunc(string(b)))
 		}
 		t, ok := parseJSONText(b)
 		if !ok {
@@ -267,24 +267,24 @@ func opJS(r *hx.Run, ty string, doc *jv, nontrivial bool) string {
 			raw[i] ^= 0x55
 		}
 		if b4, _ := json.Marshal(v); !bytes.Equal(b, b4) {
-			r.Fail("", "a decoded "+ty+" changed when the JSON buffer it was decoded from was overwritten: "+firstDiff(string(b), string(b4)))
+			failW(r, "", "a decoded "+ty+" changed when the JSON buffer it was decoded from was overwritten: "+firstDiff(string(b), string(b4)))
 		}
 		// decoding what was just encoded must give the same value again
 		w := jsTypes[ty].fresh()
 		if err := json.Unmarshal(b, w); err != nil {
 			if strings.Contains(string(b), `"manifest_hash":""`) || strings.Contains(string(b), `"introduced_in":""`) {
-				r.Fail("digest-zero-value", ty+" with a zero Digest encodes to "+trunc(string(b))+" which does not decode: "+err.Error())
+				failW(r, "digest-zero-value", ty+" with a zero Digest encodes to "+trunc(string(b))+" which does not decode: "+err.Error())
 			} else {
-				r.Fail("", "re-encoded "+ty+" does not decode: "+err.Error()+" json="+trunc(string(b)))
+				failW(r, "", "re-encoded "+ty+" does not decode: "+err.Error()+" json="+trunc(string(b)))
 			}
 		} else if b3, _ := json.Marshal(w); !bytes.Equal(b, b3) {
 			// (compared as documents: a WFN with unset attributes legitimately reads back with ANY there, which is C19's business)
-			r.Fail("", "re-encoded "+ty+" decodes to a different value: "+deepDiff(reflect.ValueOf(v), reflect.ValueOf(w), "")+" "+firstDiff(string(b), string(b3)))
+			failW(r, "", "re-encoded "+ty+" decodes to a different value: "+deepDiff(reflect.ValueOf(v), reflect.ValueOf(w), "")+" "+firstDiff(string(b), string(b3)))
 		}
 		return "ok " + t.wireString(true)
 	})
 	if out == "panic" {
-		r.Fail("", "json.Unmarshal into "+ty+" panics on "+trunc(buf.String()))
+		failW(r, "", "json.Unmarshal into "+ty+" panics on "+trunc(buf.String()))
 	}
 	r.Op("js "+ty+" "+doc.wireString(false), out, nontrivial)
 	r.Count("js:" + ty + ":" + strings.SplitN(out, " ", 2)[0])
@@ -550,7 +550,7 @@ func runJSON(r *hx.Run, cfg hx.Config, rnd *hx.Rand) {
 			doc, _ = docOf(coherentIR(rnd))
 		}
 		if doc == nil {
-			r.Fail("", "json.Marshal of a filled "+ty+" failed")
+			failW(r, "", "json.Marshal of a filled "+ty+" failed")
 			continue
 		}
 		opJS(r, ty, doc, true)
@@ -600,7 +600,7 @@ func runJSON(r *hx.Run, cfg hx.Config, rnd *hx.Rand) {
 		b, _ := json.Marshal(x)
 		var back D
 		if err := json.Unmarshal(b, &back); err != nil || back != x {
-			r.Fail("duration-value-marshal", "json.Marshal(struct{D Duration}{90m}) by value = "+string(b)+", which Duration's decoder rejects")
+			failW(r, "duration-value-marshal", "json.Marshal(struct{D Duration}{90m}) by value = "+string(b)+", which Duration's decoder rejects")
 		}
 	}
 }
@@ -625,7 +625,7 @@ func byValueRoundTrip(r *hx.Run, what string, val, ptr, fresh interface{}) {
 	})
 	r.Case("by-value "+what, true)
 	if out != "ok" {
-		r.Fail("", "json round trip of a "+what+" marshalled by value: "+out)
+		failW(r, "", "json round trip of a "+what+" marshalled by value: "+out)
 	}
 }
 
@@ -645,7 +645,7 @@ func firstDiff(a, b string) string {
 	if hb > len(b) {
 		hb = len(b)
 	}
-	return "…" + a[lo:ha] + "… VS …" + b[lo:hb] + "…"
+	return strings.ToValidUTF8("…"+a[lo:ha]+"… VS …"+b[lo:hb]+"…", "?")
 }
 
 // deepDiff names the first place two values of one type differ.
